@@ -296,9 +296,35 @@ def run_internal(cfg, devs, speed=(1, 1), initial=0, stim=(), t_end=3_000_000_00
         info.setdefault("tickers", {})[id(self)] = self
         if bus is not None:
             bus.events.append(("tick", getattr(self.update_component, "__self__", None), int(time)))
+            r = await orig_call(self, time, update_components)
+            bus.events.append(("tickend", getattr(self.update_component, "__self__", None)))
+            return r
         return await orig_call(self, time, update_components)
 
     tk.Ticker.__call__ = logged_call
+    # ... and, on the recording bus, what the replay of the alert protocol (Oracle/AlertReplay.v) needs besides the bus's own events:
+    # the components a tick is going to update, every answer the ticker is handed, the end of a master tick, the stamp of an interrupt
+    orig_start, orig_prop = tk.Ticker._start_tick, tk.Ticker.propagate
+    from tickit.core.management.schedulers.master import MasterScheduler as _MS
+    orig_sched_int = _MS.schedule_interrupt
+    if bus is not None:
+        async def logged_start(self, time, update_components):
+            r = await orig_start(self, time, update_components)
+            bus.events.append(("tickstart", getattr(self.update_component, "__self__", None), int(time),
+                               sorted(cid(x) for x in update_components), sorted(cid(x) for x in self.to_update)))
+            return r
+
+        async def logged_prop(self, output):
+            bus.events.append(("propagate", getattr(self.update_component, "__self__", None), cid(output.source), type(output).__name__,
+                               None if getattr(output, "call_at", None) is None else int(output.call_at)))
+            return await orig_prop(self, output)
+
+        async def logged_sched_int(self, source):
+            lp = asyncio.get_event_loop()
+            bus.events.append(("stamp", cid(source), int(self.last_tick_time + int((lp.time_ns() - self.last_time) * self.simulation_speed))))
+            return await orig_sched_int(self, source)
+
+        tk.Ticker._start_tick, tk.Ticker.propagate, _MS.schedule_interrupt = logged_start, logged_prop, logged_sched_int
     from tickit.core.components.system_component import SystemComponent
     orig_output = SystemComponent.output
 
@@ -398,6 +424,7 @@ def run_internal(cfg, devs, speed=(1, 1), initial=0, stim=(), t_end=3_000_000_00
         err = "exception " + repr(e)
     finally:
         tk.Ticker.__call__ = orig_call
+        tk.Ticker._start_tick, tk.Ticker.propagate, _MS.schedule_interrupt = orig_start, orig_prop, orig_sched_int
         SystemComponent.output = orig_output
     per = {}
     for (c, t, i) in TRACE:
@@ -420,6 +447,8 @@ def run_internal(cfg, devs, speed=(1, 1), initial=0, stim=(), t_end=3_000_000_00
         from tickit.core.typedefs import Input, Output, Skip
         deliveries = []
         for ev in bus.events:
+            if ev[0] in ("produce", "tickstart", "propagate", "tickend", "stamp"):
+                continue
             if ev[0] == "tick":
                 owner = getattr(getattr(ev[1], "raise_interrupt", None), "__self__", None)
                 if owner is None or not hasattr(owner, "name"):
@@ -437,7 +466,8 @@ def run_internal(cfg, devs, speed=(1, 1), initial=0, stim=(), t_end=3_000_000_00
                 item = ("other", ev[1], type(msg).__name__)
             if deliveries:
                 deliveries[-1][1].append(item)
-    return dict(per=per, trace=[(c, t, dict(i)) for (c, t, i) in TRACE], trace_rt=list(TRACE_RT), ticklog=ticklog, deliveries=deliveries,
+    alert = alert_events(cfg, bus.events, sys_level) if bus is not None else None
+    return dict(per=per, trace=[(c, t, dict(i)) for (c, t, i) in TRACE], trace_rt=list(TRACE_RT), ticklog=ticklog, deliveries=deliveries, alert=alert,
                 mticks=mticks, inj=info.get("inj"), steps=info.get("steps"), overlap=overlap,
                 early_before_scheduler=info.get("early_before_scheduler"),
                 error=err, errors=info.get("errors", []), tasks_done=info.get("tasks_done"), done_by=info.get("done_by"), bus=info.get("bus"),
@@ -561,6 +591,126 @@ def render_sim_case(cfg, devs, speed, initial, stim, t_end, run, pre=()):
             "sc_end := %s; sc_observed := %s; sc_trace := %s; sc_ticklog := %s; sc_mticks := %s |}") % (
         r_config(cfg), r_devs(devs), Zr(speed[0]), Zr(speed[1]), Zr(initial), L(P(c) for c in pre), r_stim(cfg, stim), Zr(t_end), obs,
         trace, ticklog, mticks)
+
+
+def alert_events(cfg, events, sys_level):
+    """what the schedulers and components did, as events of the alert protocol (Oracle/AlertReplay.v [aevent]); None when
+    something happened that the protocol does not describe (an exception message, a stop)"""
+    from tickit.core.typedefs import Input, Interrupt, Output, Skip
+    level_of, kind_of, owner = {}, {}, {}          # component -> its level / kind; level -> (parent level, system component)
+    for lv, l in cfg.items():
+        for (c, k) in l["order"]:
+            level_of[c], kind_of[c] = lv, k
+            if k != "dev":
+                owner[k] = (lv, c)
+
+    def lvl(sched):
+        own = getattr(getattr(sched, "raise_interrupt", None), "__self__", None)
+        if own is None or not hasattr(own, "name"):
+            return 1
+        return sys_level.get(cid(own.name))
+
+    def topic_comp(topic):
+        name = topic[len("tickit-"):]
+        for suf in ("-in", "-out"):
+            if name.endswith(suf):
+                return cid(name[:-len(suf)]), suf
+        return None, None
+
+    out = []
+    stamps = []
+    for i, ev in enumerate(events):
+        kind = ev[0]
+        if kind == "stamp":
+            stamps.append(ev)
+        elif kind == "produce":
+            c, suf = topic_comp(ev[1])
+            msg = ev[2]
+            if isinstance(msg, Interrupt):
+                if kind_of.get(c) == "dev":
+                    out.append(("ERaise", level_of[c], c))
+                # the interrupt of a system simulation is part of the step of its nested scheduler
+            elif isinstance(msg, Skip):
+                out.append(("ESkip", level_of[c], c))
+            elif isinstance(msg, Output) and kind_of.get(c) not in (None, "dev"):
+                out.append(("EDone", level_of[c], c, kind_of[c], None if msg.call_at is None else int(msg.call_at)))
+            elif not isinstance(msg, (Input, Output)):
+                return None
+        elif kind == "deliver":
+            c, suf = topic_comp(ev[1])
+            msg = ev[2]
+            if isinstance(msg, Input) and kind_of.get(c) == "dev":
+                # the device computes and publishes its Output before its handler first suspends: the next Output on its topic
+                ca = "missing"
+                for later in events[i + 1:]:
+                    if later[0] == "produce" and isinstance(later[2], Output) and topic_comp(later[1])[0] == c:
+                        ca = None if later[2].call_at is None else int(later[2].call_at)
+                        break
+                if ca == "missing":
+                    return None
+                out.append(("EInDev", level_of[c], c, ca))
+            elif isinstance(msg, Interrupt):
+                lv = level_of[c]
+                if lv == 1:
+                    out.append(("EIntTop", c, None))          # the stamp follows (schedule_interrupt is the next thing the handler does)
+                else:
+                    out.append(("EIntNested", owner[lv][0], owner[lv][1], lv, c))
+            elif not isinstance(msg, (Input, Output, Skip)):
+                return None
+        elif kind == "tickstart":
+            lv = lvl(ev[1])
+            if lv == 1:
+                out.append(("EMTick", ev[2], ev[3], ev[4]))
+            elif lv in owner:
+                out.append(("EInSys", owner[lv][0], owner[lv][1], lv, ev[3], ev[4]))
+            else:
+                return None
+        elif kind == "propagate":
+            lv, c = lvl(ev[1]), ev[2]
+            if c in (EXT, EXP):
+                out.append(("EInDev", lv, c, None) if ev[3] == "Output" else ("ESkip", lv, c))
+            out.append(("EOut", lv, c, ev[4]))
+        elif kind == "tickend":
+            if lvl(ev[1]) == 1:
+                out.append(("EMDone",))
+    # the stamps, in order, belong to the interrupts the master handled, in order
+    k = 0
+    for j, e in enumerate(out):
+        if e[0] == "EIntTop":
+            if k >= len(stamps) or stamps[k][1] != e[1]:
+                return None
+            out[j] = ("EIntTop", e[1], stamps[k][2])
+            k += 1
+    return out
+
+
+def render_alert(cfg, initial, alert):
+    """(configuration, top-level components, initial time, events) for Oracle/AlertReplay.v"""
+    def ev(e):
+        O = lambda v: "None" if v is None else "(Some %s)" % Zr(v)  # noqa: E731
+        Ls = lambda xs: L(P(x) for x in xs)  # noqa: E731
+        k = e[0]
+        if k == "ERaise":
+            return "ERaise %s %s" % (P(e[1]), P(e[2]))
+        if k == "EIntTop":
+            return "EIntTop %s %s" % (P(e[1]), Zr(e[2]))
+        if k == "EIntNested":
+            return "EIntNested %s %s %s %s" % (P(e[1]), P(e[2]), P(e[3]), P(e[4]))
+        if k == "EMTick":
+            return "EMTick %s %s %s" % (Zr(e[1]), Ls(e[2]), Ls(e[3]))
+        if k == "EInDev":
+            return "EInDev %s %s %s" % (P(e[1]), P(e[2]), O(e[3]))
+        if k == "EInSys":
+            return "EInSys %s %s %s %s %s" % (P(e[1]), P(e[2]), P(e[3]), Ls(e[4]), Ls(e[5]))
+        if k == "ESkip":
+            return "ESkip %s %s" % (P(e[1]), P(e[2]))
+        if k == "EOut":
+            return "EOut %s %s %s" % (P(e[1]), P(e[2]), O(e[3]))
+        if k == "EDone":
+            return "EDone %s %s %s %s" % (P(e[1]), P(e[2]), P(e[3]), O(e[4]))
+        return "EMDone"
+    tops = [c for (c, _) in cfg[1]["order"]]
+    return "(%s, %s, %s, %s)" % (r_config(cfg), L(P(c) for c in tops), Zr(initial), L(ev(e) for e in alert))
 
 
 def comp_paths(cfg):
